@@ -1,6 +1,8 @@
 package checks
 
 import (
+	"strings"
+
 	"verif/harness/core"
 	"verif/harness/gen"
 )
@@ -62,6 +64,11 @@ func C02(tier string) {
 	bad := map[string]bool{}
 	for _, k := range known {
 		bad[k.Sig] = true
+		if strings.Contains(k.Sig, ">") && !strings.HasPrefix(k.Sig, "*") {
+			for _, l := range strings.Split(k.Sig, ">") {
+				bad[l] = true // links of the closure family, see c01.go
+			}
+		}
 	}
 	// ordinary links around the guards are drawn from links without single-link C01 findings: C02 is about the guards
 	var okPlain []string
